@@ -35,6 +35,17 @@ FORBIDDEN = re.compile(
 )
 
 
+def in_box(model, x):
+    """is every parameter of the structured point(s) `x` inside the closed prior interval the model declares FOR THAT NAME?
+    Independent of nessai's own Model.in_bounds (which the checks must be able to judge)."""
+    import numpy as np
+    ok = np.ones(np.shape(x[model.names[0]]), dtype=bool)
+    for n in model.names:
+        lo, hi = model.bounds[n]
+        ok = ok & (x[n] >= lo) & (x[n] <= hi)
+    return ok
+
+
 class Infra(Exception):
     """Infrastructure failure (not a verdict): exit code 2."""
 
